@@ -49,8 +49,10 @@ static int process_data(xfrm_stream_t *stream, const void *in,
 			ret = inflate(&gzip->strm, zlib_action[flush_mode]);
 		}
 
-		if (ret == Z_STREAM_ERROR)
+		if (ret == Z_STREAM_ERROR || ret == Z_DATA_ERROR ||
+		    ret == Z_MEM_ERROR || ret == Z_NEED_DICT) {
 			return XFRM_STREAM_ERROR;
+		}
 
 		diff = in_size - gzip->strm.avail_in;
 		in = (const char *)in + diff;
